@@ -54,7 +54,14 @@ def run_common(ctx, prop_file, theorem_names):
                         names = open(shard.replace(".v", ".names")).read().splitlines()
                         import re
                         idx = [int(x) for x in re.findall(r"\((\d+), \d+\)", o.split(":")[0])]
-                        res["model_rejects"].append({"shard": shard, "programs": [names[i] for i in idx if i < len(names)],
+                        progs = [names[i] for i in idx if i < len(names)]
+                        texts = {}
+                        try:
+                            allt = json.load(open(shard.replace(".v", ".sierra.json")))
+                            texts = {k: allt.get(k, "") for k in progs[:3]}
+                        except Exception:
+                            pass
+                        res["model_rejects"].append({"shard": shard, "programs": progs, "sierra": texts,
                                                      "coq_output": o[:1500]})
     else:
         ctx.violation("harness h15 does not build against /repo's working tree",
